@@ -20,7 +20,7 @@ PLAN = {
     },
     "C01": {
         "level": "proof",
-        "contracts": ["contracts.fuzz"],
+        "contracts": ["contracts.fuzz", "contracts.search"],
         "bounded": ["bounded.c01"],
         "assumptions": [
             "precondition of every fuzz() contract: the Gmutator probabilities of the node's settings are 0 / False (the default); with a positive probability the code deliberately produces non-derivations",
@@ -29,7 +29,7 @@ PLAN = {
             "distance_to_completion and node budgets are abstracted to unconstrained reals (no NaN): they steer which expansion is chosen, never what counts as a derivation",
             "random.random / randint / choice are non-deterministic choices within their documented ranges",
             "structural induction over the call depth: each fuzz() is checked against the abstract contract of its callees; termination of the recursion is not claimed",
-            "crossover, mutation, repetition repair and fix_individual are NOT under contract (bounded half only)",
+            "crossover, mutation, repetition repair and fix_individual are NOT under contract (bounded half only); of the repair of computed repetition counts only DerivationTree.find_by_origin's first statement is (prefix contract: every child and every source is searched, whatever its symbol -- the loop over the node's own tags that follows is outside the engine's reach)",
         ],
     },
     "C16": {
